@@ -446,6 +446,11 @@ class OrderInterp:
                         ts = [self.tag(v) for v in e.args[0].values if self.tag(v).kind in ("rows", "sorted")]
                         return ts[0] if ts else Tag("sorted", "literal", "written order")
                     return argtags[0] if argtags else TOP
+                if name == "Series" and e.args and ("index" in kw or len(e.args) > 1):
+                    # values are labelled with the index by position
+                    ix = kw.get("index", e.args[1] if len(e.args) > 1 else None)
+                    if ix is not None and self.tag(e.args[0]).kind in ("rows", "sorted", "top") and self.tag(ix).kind in ("rows", "sorted", "top"):
+                        self.site("pairing", "Series(values, index=...)", e, [e.args[0], ix])
                 if name in ("Series", "array", "asarray", "isnan", "where", "abs", "round", "floor", "ceil", "sign", "unique_keep"):
                     for t in argtags:
                         if t.kind in ("rows", "sorted", "grouped"):
@@ -519,6 +524,14 @@ class OrderInterp:
                 return rt
             if name in ("join",) and rk[0] == "str":
                 return SCALAR
+            if rk[0] == "list" and len(rk) > 1 and isinstance(rk[1], str) and rk[1] in self.M.classes and name not in ORDER_KEEP:
+                # a method of a repository list class: if its body sorts (self.sorted() / sort_values) the values it returns are
+                # in time order, not in the receiver's row order
+                mq = self.M.method(rk[1], name)
+                if mq and mq in self.M.funcs:
+                    body_txt = ast.unparse(self.M.funcs[mq].node)
+                    if "self.sorted()" in body_txt or ".sort_values(" in body_txt:
+                        return Tag("sorted", rt.base or rtxt, "offset")
             if name in ORDER_KEEP or rk[0] in ("df", "series", "nd") or rt.kind in ("rows", "sorted", "grouped"):
                 if name in ("get", "pop", "split", "strip", "format", "encode", "decode", "startswith", "endswith", "index"):
                     return SCALAR if rk[0] in ("str", "bytes", "dict") else TOP
